@@ -152,7 +152,7 @@ def run_c10(t, tier, res):
         return
     lmax = (8 if t.chance(1, 2) else 24) if tier == "quick" else 34
     want = {}
-    budget_strings = 40000
+    budget_strings = 20000
     for lvl in range(0, lmax + 1):
         try:
             c = ref.count(lvl)
@@ -172,7 +172,7 @@ def run_c10(t, tier, res):
     for lvl, w in sorted(list(want.items())):
         try:
             mc = MarkovCracker(g, lvl, Optimizer(max_length=knob))
-            got, done = drain(mc, sum(w.values()) * 2 + 5, work=300000)
+            got, done = drain(mc, sum(w.values()) * 2 + 5, work=150000)
         except WorkLimit:
             res.stats["levels_skipped_work_limit"] += 1
             want.pop(lvl)
@@ -198,7 +198,8 @@ def run_c10(t, tier, res):
         res.rejected = "levels_too_expensive"
         return
     # history configuration: one shared optimizer
-    _WORK[0] = 1500000
+    _WORK[0] = 600000
+    knob = t.draw(7)                      # the shared cache gets its own size
     opt = Optimizer(max_length=knob)
     gens = []       # [level, cracker, collected, finished]
     nops = t.between(4, 10)
@@ -229,6 +230,8 @@ def run_c10(t, tier, res):
                         res.violate("C10", "no_exhaustion", {"level": gen[0], "configuration": "shared cache",
                                                              "history": repr(history)})
                         return
+        except WorkLimit:
+            raise
         except Exception:
             import traceback
             res.violate("C10", "raised", {"configuration": "shared cache", "history": repr(history),
@@ -246,6 +249,8 @@ def run_c10(t, tier, res):
                     res.violate("C10", "no_exhaustion", {"level": gen[0], "configuration": "shared cache",
                                                          "history": repr(history)})
                     return
+        except WorkLimit:
+            raise
         except Exception:
             import traceback
             res.violate("C10", "raised", {"configuration": "shared cache drain", "history": repr(history),
@@ -322,7 +327,7 @@ def run_c18(t, tier, res):
             c = ref.count(lvl)
         except RecursionError:
             continue
-        if c > 8000 or keyspace[lvl] > 8000 or budget_left < c:
+        if c > 8000 or budget_left < c:
             continue
         budget_left -= c
         try:
@@ -440,6 +445,10 @@ def run_c11(t, tier, res):
         lt = find_omen_level(ot, s)
         ls = scorer.parse(s)
         lg = emitted.get(s)
+        lr = ref.level(s)
+        if lr != lt:
+            res.violate("C11", "trainer_level_differs_from_saved_model", {"string": s, "trainer": lt, "from_saved_files": lr, "ngram": n})
+            return
         if lt >= 0 or ls >= 0 or lg:
             nontriv += 1
         if lt != ls:
@@ -452,8 +461,18 @@ def run_c11(t, tier, res):
         elif 0 <= lt <= lmax:
             res.violate("C11", "guesser_never_emits_string", {"string": s, "trainer": lt, "scorer": ls, "enumerated_up_to": lmax})
             return
-    # per-level counts file
-    tally = collections.Counter(find_omen_level(ot, p) for p in (tr.cap.reads[-1] if tr.cap.reads else pws))
+    # the guesser reaches OMEN levels through the PCFG's Markov variable: levels of exactly equal (non-zero)
+    # probability are merged into one group of which only the first level is generated (known finding D21)
+    probs = read_pairs(os.path.join(odir, "pcfg_omen_prob.txt"), enc)
+    byp = collections.defaultdict(list)
+    for lv, pr in probs:
+        byp[float(pr)].append(lv)
+    tied = [lvs for pr, lvs in byp.items() if pr > 0 and len(lvs) > 1]
+    if tied:
+        res.violate("C11", "levels_with_equal_probability_not_all_generated", {"levels": tied[0]},
+                    key="markov-group-of-equal-probability-levels:only-first-level-generated")
+    # per-level counts file (levels recomputed from the saved model, independently of pass 3)
+    tally = collections.Counter(ref.level(p) for p in (tr.cap.reads[-1] if tr.cap.reads else pws))
     per_level = {int(a): int(b) for a, b in read_pairs(os.path.join(odir, "omen_pws_per_level.txt"), enc)}
     if dict(tally) != per_level:
         res.violate("C11", "pws_per_level_file_differs", {"file": repr(sorted(per_level.items()))[:200],
